@@ -482,7 +482,7 @@ Proof. intros h [[snap ph v]|]; reflexivity. Qed.
 
 Lemma step_tagdel_ok : forall h st, inv13 st -> inv13 (step capdb bad rf merge st (ATagDel h)).
 Proof.
-  intros h st I. simpl.
+  intros h st I. simpl. apply start_tagging_ok.
   apply (invx_same [] st); auto; simpl; [apply tj_files_invalidate|apply (i_queue _ _ I)].
 Qed.
 
@@ -497,7 +497,8 @@ Lemma step_env_ok : forall st a, inv13 st ->
   inv13 (step capdb bad rf merge st a).
 Proof.
   intros st a I H. destruct a; try contradiction; simpl; try exact I.
-  - apply start_converter_ok. exact I.
+  - apply start_converter_ok. apply start_tagging_ok. exact I.
+  - apply start_tagging_ok. exact I.
   - apply (invx_same [] st); auto. apply (i_queue _ _ I).
   - apply (invx_same [] st); auto. apply (i_queue _ _ I).
   - apply start_merge_ok. apply start_converter_ok. apply start_tagging_ok. exact I.
@@ -817,8 +818,10 @@ Proof.
   - destruct (view_of v (views st)) as [[|]|]; auto. destruct rf; auto.
   - destruct (view_of v (views st)); auto.
   - intros u. rewrite indexes_start_tagging. apply U.
+  - intros u. rewrite indexes_start_tagging. apply U.
   - intros u. rewrite indexes_start_converter, indexes_start_tagging. apply U.
-  - intros u. rewrite indexes_start_converter. apply U.
+  - intros u. rewrite indexes_start_converter, indexes_start_tagging. apply U.
+  - intros u. rewrite indexes_start_tagging. apply U.
   - intros u. rewrite indexes_start_merge, indexes_start_converter, indexes_start_tagging. apply U.
   - destruct (mjob st) as [[off snap [|] mg]|]; auto.
   - destruct k.
